@@ -311,6 +311,13 @@ def run_case(case):
             v("C10/dims/" + kindd, name=ident, declared=list(d[0][0]), expected=dims)
         if used and d[0][2] > first_use[ident] and not dim_late:
             v("C10/declared-after-use", name=ident)
+    # scalars the source DIMensions: BASIC09 takes a name's type from its first mention, so the declaration comes first
+    # (an assignment in front of it would make the name an implicit REAL / 32-byte string and the DIM a second declaration)
+    if not dim_late:
+        for ident, (cls_, nd_, dimmed_) in posmap.items():
+            d = byname.get(ident)
+            if dimmed_ and not nd_ and d and ident in first_use and d[0][2] > first_use[ident]:
+                v("C10/declared-after-use/scalar", name=ident)
     # strings
     if storage != 32:
         present = set(n for n in first_use if n.endswith("$")) | set(n for n in byname if n.endswith("$"))
